@@ -30,7 +30,7 @@ ANCHORS = [
     "acnportal.acnsim.analysis:aggregate_current",
     "acnportal.acnsim.analysis:total_energy_delivered",
 ]
-REQUIRED = ["finished_simulations_continued_with_more_arrivals", "runs_with_scheduler_trial_charging_its_copies", "resumed_runs_judged", "resumed_after_json", "stochastic_runs_judged", "stochastic_runs_with_early_departure", "stochastic_cells_checked", "runs_judged", "sessions_reconciled", "charge_calls_logged", "vacant_cells_checked", "vacant_station_pilots",
+REQUIRED = ["peak_checked_at_period_end", "finished_simulations_continued_with_more_arrivals", "runs_with_scheduler_trial_charging_its_copies", "resumed_runs_judged", "resumed_after_json", "stochastic_runs_judged", "stochastic_runs_with_early_departure", "stochastic_cells_checked", "runs_judged", "sessions_reconciled", "charge_calls_logged", "vacant_cells_checked", "vacant_station_pilots",
             "battery_json_dumps", "regime:heterogeneous-voltage", "regime:noise-battery", "regime:two-stage", "regime:ideal"]
 BUDGET_S = {"quick": 240, "thorough": 3000}
 
@@ -73,6 +73,15 @@ def cases(seed, tier):
     for i in range(n // 6):
         d = gen.scenario(rng, sched=rng.choice(["scripted", "uncontrolled"]), noise_p=0.0)
         out.append({"desc": d, "resumed_at": rng.choice([1, 2, 4, 7])})
+    # corpus: ideal batteries that a pilot-limited last step leaves a hair (5e-7 .. 2e-5 kWh) short of full
+    ev_ = {"t": "EVSE", "max": 32, "min": 0}
+    for V_, per_, k_, gap_ in [(208, 5, 3, 5e-7), (240, 15, 2, 9e-7), (120, 1, 5, 2e-6), (208, 5, 4, 3e-8)]:
+        step = 32 * V_ / 1000.0 * per_ / 60.0
+        net_ = {"stations": [{"id": "s0", "evse": ev_, "voltage": V_, "phase": 0}], "constraints": [], "tol": None}
+        out.append({"desc": {"period": per_, "network": net_, "recompute": [], "np_seed": 1,
+                             "sessions": [{"id": "x0", "station": "s0", "arrival": 0, "departure": k_ + 3, "requested": 1e3, "est_dep": k_ + 3,
+                                           "battery": {"t": "ideal", "cap": 10 + k_ * step + gap_, "init": 10, "maxp": 50}}],
+                             "scheduler": {"kind": "scripted", "mr": 1, "seed": 3, "t0": 0, "mode": "full"}}, "meddle": False, "nearly_full": True})
     from props.c19 import gen_history
     for i in range(n // 5):
         out.append({"desc": gen_history(rng), "stochastic": True, "rseed": rng.randrange(1 << 30)})
@@ -370,6 +379,15 @@ def run_case(case, obs):
     exp_peak = max([0.0] + agg[:T])
     if not (abs(sim.peak - exp_peak) <= tol(exp_peak)):
         obs.violate("peak", f"peak {sim.peak!r}, max aggregate recorded current {exp_peak!r}", **wit)
+    # the peak is the maximum so far at the end of EVERY period (read in the end-of-period hook), not only when run() returns
+    run_max = 0.0
+    for snap in probe.snaps:
+        if snap["t"] < len(agg):
+            run_max = max(run_max, agg[snap["t"]])
+            obs.ev("peak_checked_at_period_end")
+            if not (abs(snap["peak"] - run_max) <= tol(run_max)):
+                obs.violate("peak_lags_during_run", f"end of period {snap['t']}: peak {snap['peak']!r}, maximum recorded aggregate current so far {run_max!r}", **wit)
+                break
     ac = acnsim.aggregate_current(sim)
     if len(ac) != cr.shape[1] or not np.allclose(ac, agg, rtol=1e-9, atol=1e-12):
         obs.violate("aggregate_current", "aggregate_current != column sums of charging_rates", **wit)
